@@ -11,11 +11,14 @@ Inductive fnode :=
 
 Definition fs := list (str * fnode).
 
+(* the value assigned: identifier 0 stands for a fresh empty FeatureStructure *)
+Definition val_of (v : N) : fnode := if N.eqb v 0 then FSub [] else FLeaf v.
+
 (* self[key] = val ; the key already split at the dots; None = TFSError *)
 Fixpoint setitem (f : fs) (path : list str) (v : N) {struct path} : option fs :=
   match path with
   | [] => None
-  | [k] => Some (dict_set (ascii_upper k) (FLeaf v) f)
+  | [k] => Some (dict_set (ascii_upper k) (val_of v) f)
   | k :: rest =>
       let ku := ascii_upper k in
       match dict_get ku f with
